@@ -28,6 +28,8 @@ def printText (T : Table) (L : Ladder) (S : List (List Nat)) (uni : Bool) : Skel
   | .ann t ty => 40 :: (printText T L S uni t ++ (58 :: 58 :: (printTyText L.ty S uni ty ++ [41])))
   | .binderT b x ty body => binderTxt T L uni b ++ (x ++ (58 :: 58 :: (printTyText L.ty S uni ty ++ 46 :: 32 :: printText T L S uni body)))
   | .interval a b => 123 :: (printText T L S uni a ++ 46 :: 46 :: (printText T L S uni b ++ [125]))
+  | .collect x body => 123 :: (x ++ 46 :: 32 :: (printText T L S uni body ++ [125]))
+  | .collectT x ty body => 123 :: (x ++ (58 :: 58 :: (printTyText L.ty S uni ty ++ 46 :: 32 :: (printText T L S uni body ++ [125]))))
 
 /-- The printed text with line breaks: `print_ast` with a line width writes, where the unbroken layout has
 a separating blank, that blank followed by more whitespace (newline and indentation) — `sepB path slot`,
@@ -49,6 +51,8 @@ def printTextW (T : Table) (L : Ladder) (S : List (List Nat)) (uni : Bool) (sepB
   | p, .binderT b x ty body => binderTxt T L uni b ++ (x ++ (58 :: 58 :: (printTyText L.ty S uni ty ++
       46 :: 32 :: printTextW T L S uni sepB sepF (0 :: p) body)))
   | p, .interval a b => 123 :: (printTextW T L S uni sepB sepF (0 :: p) a ++ 46 :: 46 :: (printTextW T L S uni sepB sepF (1 :: p) b ++ [125]))
+  | p, .collect x body => 123 :: (x ++ 46 :: 32 :: (printTextW T L S uni sepB sepF (0 :: p) body ++ [125]))
+  | p, .collectT x ty body => 123 :: (x ++ (58 :: 58 :: (printTyText L.ty S uni ty ++ 46 :: 32 :: (printTextW T L S uni sepB sepF (0 :: p) body ++ [125]))))
 
 /-- the inserted characters are whitespace; the run before `else` is not empty -/
 def SepOK (sepB : List Nat → Nat → List Nat) (sepF : List Nat → List Nat) : Prop :=
@@ -69,6 +73,8 @@ def Skel.NamesOK (S : List (List Nat)) : Skel → Prop
   | .ann t ty => t.NamesOK S ∧ ty.NamesOK S
   | .binderT _ x ty body => (NameOK S x = true ∧ idShaped x = true) ∧ ty.NamesOK S ∧ body.NamesOK S
   | .interval a b => a.NamesOK S ∧ b.NamesOK S
+  | .collect x body => (NameOK S x = true ∧ idShaped x = true) ∧ body.NamesOK S
+  | .collectT x ty body => (NameOK S x = true ∧ idShaped x = true) ∧ ty.NamesOK S ∧ body.NamesOK S
 
 /-! ### how a term text may begin -/
 
